@@ -257,6 +257,194 @@ theorem drv_ckks_encrypt_decrypt_prng_pk {U : Rng.Uniform} (hU : U.Contract) {xo
       ∀ i, i < l.size → ∀ c, c < n → (intt (l.tbl i) (dec.getD i #[])).getD c 0 = Spec.imod (M.getD c 0 + ν c) (l.q i).value :=
   drv_ckks_encrypt_decrypt hc hl (drvMode_pk_of_prng hU hx hk hl hs1 hs2 hmask hnoise) hMs hsmall
 
+/-- the draws of `Rng.symCore`: canonical mask, error = `rnsOfInt` of a polynomial with ‖e‖∞ ≤ 21 -/
+theorem c01y_sym_tape {U : Rng.Uniform} (hU : U.Contract) {xof : Rng.Xof} (hx : Rng.ByteXof xof) {scheme : Scheme} {n t : Nat}
+    {lqs : List Nat} {l : Level} (hl : Drv.Sch.mkLevel scheme n lqs t = .ok l) {c1prng boot : Rng.St} (hs2 : Rng.ByteSt boot)
+    {am em : List (List Nat)}
+    (hmask : (Rng.symCore U xof ⟨n, lqs, 2⟩ c1prng boot []).1.mask = .ok am)
+    (hnoise : (Rng.symCore U xof ⟨n, lqs, 2⟩ c1prng boot []).1.noise = [.ok em]) :
+    ∃ e : Array Int, RnsCanon l (toRns am) ∧ e.size = n ∧ (∀ p, p < n → (e.getD p 0).natAbs ≤ 21) ∧ toRns em = rnsOfInt l e := by
+  unfold Rng.symCore at hmask hnoise
+  simp only [] at hmask hnoise
+  cases hu : Rng.uniformPoly U xof (Rng.fromSeed (Rng.fillBytes xof c1prng Gen.PRNG_SEED_BYTES).1) n lqs with
+  | error e => rw [hu] at hmask; cases hmask
+  | ok r =>
+    rw [hu] at hmask
+    have ham : r.1 = am := by injection hmask
+    cases he : Rng.centeredBinomial xof boot n lqs with
+    | error e => rw [he] at hnoise; simp [Except.map] at hnoise
+    | ok r' =>
+      rw [he] at hnoise
+      have hem : r'.1 = em := by simpa [Except.map] using hnoise
+      obtain ⟨hcan, _⟩ := uniform_tape hU hx hl (Rng.byteSt_fromSeed _) (c := r.1) (s' := r.2) hu
+      obtain ⟨e, a1, a2, a3, _⟩ := cbd_tape hx hl hs2 (c := r'.1) (s' := r'.2) he
+      exact ⟨e, by rw [← ham]; exact hcan, a1, a2, by rw [← hem]; exact a3⟩
+
+/-! ## Y5: the model's own generator-level functions (`encryptZeroAsymPrng`, `encryptZeroSymPrng`), and the key material from the generators -/
+
+theorem c01y_mapR_id {α : Type} : ∀ (L : List (R α)) (es : List α), Rng.mapR id L = .ok es → L = es.map .ok
+  | [], es, h => by
+    have : es = [] := by
+      simp only [Rng.mapR, Except.ok.injEq] at h
+      exact h.symm
+    subst this; rfl
+  | x :: L, es, h => by
+    unfold Rng.mapR at h
+    cases x with
+    | error e => simp at h
+    | ok b =>
+      simp only [id] at h
+      cases hr : Rng.mapR id L with
+      | error e => rw [hr] at h; simp at h
+      | ok bs =>
+        rw [hr] at h
+        simp only [Except.ok.injEq] at h
+        subst h
+        rw [c01y_mapR_id L bs hr]
+        rfl
+
+theorem c01y_noiseMany_len (xof : Rng.Xof) (P : Rng.Parms) : ∀ (k : Nat) (s : Rng.St) (es : List (List (List Nat))),
+    Rng.noiseMany xof P k s = es.map .ok → es.length = k
+  | 0, s, es, h => by
+    simp only [Rng.noiseMany] at h
+    cases es with
+    | nil => rfl
+    | cons a b => simp at h
+  | k + 1, s, es, h => by
+    unfold Rng.noiseMany at h
+    split at h
+    · cases es with
+      | nil => simp at h
+      | cons a b => simp at h
+    · rename_i c s' _
+      cases es with
+      | nil => simp at h
+      | cons a b =>
+        simp only [List.map_cons, List.cons.injEq] at h
+        have := c01y_noiseMany_len xof P k s' b h.2
+        simp [this]
+
+/-- the generator-level function IS the tape-level function on the tape the generators deliver -/
+theorem encryptZeroAsymPrng_eq_tape {U : Rng.Uniform} {xof : Rng.Xof} {l : Level} {pk : Array RnsPoly} (hsz : pk.size = 2)
+    {uprng noisePrng : Rng.St} (isNtt : Bool) {um e0m e1m : List (List Nat)}
+    (hmask : (Rng.asymCore U xof ⟨l.n, l.qs.toList.map (·.value), 2⟩ uprng noisePrng []).1.mask = .ok um)
+    (hnoise : (Rng.asymCore U xof ⟨l.n, l.qs.toList.map (·.value), 2⟩ uprng noisePrng []).1.noise = [.ok e0m, .ok e1m]) :
+    encryptZeroAsymPrng U xof l pk uprng noisePrng isNtt =
+      (encryptZeroAsym l pk (toRns um) #[toRns e0m, toRns e1m] isNtt).map
+        (fun ct => (ct, (Rng.asymCore U xof ⟨l.n, l.qs.toList.map (·.value), 2⟩ uprng noisePrng []).2)) := by
+  unfold encryptZeroAsymPrng
+  simp only []
+  rw [hsz, hmask, hnoise]
+  show (do
+    let ct ← encryptZeroAsym l pk (toRns um) #[toRns e0m, toRns e1m] isNtt
+    pure (ct, (Rng.asymCore U xof ⟨l.n, l.qs.toList.map (fun m : Modulus => m.value), 2⟩ uprng noisePrng []).2)) = _
+  cases encryptZeroAsym l pk (toRns um) #[toRns e0m, toRns e1m] isNtt <;> rfl
+
+/-- WHATEVER the model's generator-level public-key encryption of zero (`encryptZeroAsymPrng`: ternary u from the u-generator, one error
+    per key polynomial from the noise generator, then `encryptZeroAsym`) RETURNS at the head of the chain IS a fresh encryption of zero
+    with ‖ν‖∞ ≤ 21(2N+1) — for every generator state, byte-valued XOF, integer sampler within its contract -/
+theorem encryptZeroAsymPrng_fresh {U : Rng.Uniform} (hU : U.Contract) {xof : Rng.Xof} (hx : Rng.ByteXof xof) {scheme : Scheme} {n t : Nat}
+    {kqs lqs r : List Nat} {kl : Level} {sk : Array Int} {pk0 pk1 : RnsPoly} {l : Level}
+    (hc : DrvCtx scheme n t kqs kl sk pk0 pk1) (hk : kqs = lqs ++ r) (hl : Drv.Sch.mkLevel scheme n lqs t = .ok l)
+    {uprng noisePrng : Rng.St} (hs1 : Rng.ByteSt uprng) (hs2 : Rng.ByteSt noisePrng) {ct : Ct} {st : Rng.St}
+    (h : encryptZeroAsymPrng U xof l #[pk0, pk1] uprng noisePrng l.scheme.encNtt = .ok (ct, st)) :
+    ∃ ν : Nat → Int, FreshZero l sk (.ok ct) ν ∧ ∀ c, c < l.n → (ν c).natAbs ≤ 21 * (2 * n + 1) := by
+  obtain ⟨hm, _, _⟩ := c01y_moduli hl
+  obtain ⟨b1, b2, b3, b4, b5, b6, b7, b8, b9⟩ := mkLevel_ok hl
+  unfold encryptZeroAsymPrng at h
+  simp only [] at h
+  rw [b6, hm, show (#[pk0, pk1] : Array RnsPoly).size = 2 from rfl] at h
+  obtain ⟨um, hmask, h⟩ := c01p_bind_ok h
+  obtain ⟨es, hes, h⟩ := c01p_bind_ok h
+  obtain ⟨ct', hct, h⟩ := c01p_bind_ok h
+  have hct' : ct' = ct := by
+    have h' : (Except.ok (ct', _) : R (Ct × Rng.St)) = .ok (ct, st) := h
+    injection h' with h'
+    exact (Prod.mk.inj h').1
+  subst hct'
+  have hnoise := c01y_mapR_id _ _ hes
+  have hlen : es.length = 2 := c01y_noiseMany_len xof ⟨n, lqs, 2⟩ 2 noisePrng es hnoise
+  obtain ⟨e0m, e1m, rfl⟩ : ∃ a b, es = [a, b] := by
+    rcases es with _ | ⟨a, _ | ⟨b, _ | ⟨c, r⟩⟩⟩ <;> simp at hlen
+    exact ⟨a, b, rfl⟩
+  have hmode := drvMode_pk_of_prng (sk := sk) (pk0 := pk0) (pk1 := pk1) (t := t) hU hx hk hl hs1 hs2 hmask hnoise
+  obtain ⟨ν, hf, hν⟩ := drvMode_fresh hc hl hmode
+  refine ⟨ν, ?_, hν⟩
+  have e : encryptZeroInternal l (.asym none #[pk0, pk1] (toRns um) #[toRns e0m, toRns e1m]) = .ok ct' := by
+    unfold encryptZeroInternal
+    exact hct
+  rw [e] at hf
+  exact hf
+
+/-- … and the generator-level secret-key encryption of zero (`encryptZeroSymPrng`: public seed from the c1 generator, mask expanded
+    from it, error from the noise generator): fresh with ‖ν‖∞ ≤ 21, at every level, with or without a saved seed; moreover the returned
+    public seed expands to polynomial 1's mask (what `expand_seed` needs) -/
+theorem encryptZeroSymPrng_fresh {U : Rng.Uniform} (hU : U.Contract) {xof : Rng.Xof} (hx : Rng.ByteXof xof) {scheme : Scheme} {n t : Nat}
+    {kqs lqs : List Nat} {kl : Level} {sk : Array Int} {pk0 pk1 : RnsPoly} {l : Level}
+    (hc : DrvCtx scheme n t kqs kl sk pk0 pk1) (hl : Drv.Sch.mkLevel scheme n lqs t = .ok l)
+    {c1prng boot : Rng.St} (hs2 : Rng.ByteSt boot) (saveSeed : Bool) {ct : Ct} {seed : Rng.Seed} {st : Rng.St}
+    (h : encryptZeroSymPrng U xof l sk c1prng boot l.scheme.encNtt saveSeed = .ok (ct, seed, st)) :
+    ∃ ν : Nat → Int, FreshZero l sk (.ok ct) ν ∧ (∀ c, c < l.n → (ν c).natAbs ≤ 21) ∧
+      ∃ a, SeedExpands U xof l seed a ∧ (seedSaved l saveSeed = true → ∃ c0, ct = ⟨#[c0, a], l.scheme.encNtt, 1⟩) := by
+  obtain ⟨hm, _, _⟩ := c01y_moduli hl
+  obtain ⟨b1, b2, b3, b4, b5, b6, b7, b8, b9⟩ := mkLevel_ok hl
+  unfold encryptZeroSymPrng at h
+  simp only [] at h
+  rw [b6, hm] at h
+  obtain ⟨am, hmask, h⟩ := c01p_bind_ok h
+  obtain ⟨em, hem, h⟩ := c01p_bind_ok h
+  obtain ⟨ct', hct, h⟩ := c01p_bind_ok h
+  have h' : (Except.ok (ct', _, _) : R (Ct × Rng.Seed × Rng.St)) = .ok (ct, seed, st) := h
+  injection h' with h'
+  obtain ⟨hc1, hc2⟩ := Prod.mk.inj h'
+  obtain ⟨hc2, _⟩ := Prod.mk.inj hc2
+  subst hc1
+  have hnoise : (Rng.symCore U xof ⟨n, lqs, 2⟩ c1prng boot []).1.noise = [.ok em] := by
+    have e1 : (Rng.symCore U xof ⟨n, lqs, 2⟩ c1prng boot []).1.noise =
+        [(Rng.centeredBinomial xof boot n lqs).map (·.1)] := rfl
+    rw [e1] at hem ⊢
+    simp only [List.getD_cons_zero] at hem
+    cases hcb : Rng.centeredBinomial xof boot n lqs with
+    | error e => rw [hcb] at hem; cases hem
+    | ok r =>
+      rw [hcb] at hem
+      have : r.1 = em := by
+        have h'' : (Except.ok r.1 : R (List (List Nat))) = .ok em := hem
+        injection h''
+      rw [← this]; rfl
+  obtain ⟨hmode, hexp⟩ := drvMode_sk_of_prng (kqs := kqs) (sk := sk) (pk0 := pk0) (pk1 := pk1) (t := t) hU hx hl hs2 hmask hnoise saveSeed
+  obtain ⟨ν, hf, hν⟩ := drvMode_fresh hc hl hmode
+  have e : encryptZeroInternal l (.sym sk (toRns am) (toRns em) saveSeed) = .ok ct' := by
+    unfold encryptZeroInternal
+    exact hct
+  rw [e] at hf
+  refine ⟨ν, hf, hν, toRns am, ?_, fun hs => ?_⟩
+  · rw [← hc2]; exact hexp
+  · cases saveSeed with
+    | false => simp [seedSaved] at hs
+    | true => exact encryptZeroSym_seeded_shape hs hct
+
+/-- THE KEY MATERIAL FROM THE GENERATORS: a ternary draw at the key level gives a secret whose stored form is `genSecretKey` of the draw,
+    and the public key the model generates from the draws of `Rng.symCore` exists; together they form a `DrvCtx` -/
+theorem drvCtx_of_prng {U : Rng.Uniform} (hU : U.Contract) {xof : Rng.Xof} (hx : Rng.ByteXof xof) {scheme : Scheme} {n t : Nat}
+    {kqs : List Nat} {kl : Level} (hkl : Drv.Sch.mkLevel scheme n kqs t = .ok kl) (hbgv : scheme = .bgv → t ≠ 0)
+    {skprng skprng' : Rng.St} (hs0 : Rng.ByteSt skprng) {tern : List (List Nat)}
+    (htern : Rng.ternary U xof skprng n kqs = .ok (tern, skprng'))
+    {c1prng boot : Rng.St} (hs2 : Rng.ByteSt boot) {am em : List (List Nat)}
+    (hmask : (Rng.symCore U xof ⟨n, kqs, 2⟩ c1prng boot []).1.mask = .ok am)
+    (hnoise : (Rng.symCore U xof ⟨n, kqs, 2⟩ c1prng boot []).1.noise = [.ok em]) (saveSeed : Bool) :
+    ∃ (sk : Array Int) (pk0 : RnsPoly), genSecretKey kl (toRns tern) = skNtt kl sk ∧
+      genPublicKey kl sk (toRns am) (toRns em) saveSeed = .ok ⟨#[pk0, toRns am], true, 1⟩ ∧
+      DrvCtx scheme n t kqs kl sk pk0 (toRns am) := by
+  obtain ⟨a1, a2, a3, a4, a5, a6, a7, a8, a9⟩ := mkLevel_ok hkl
+  obtain ⟨sk, k1, k2, k3, _⟩ := ternary_tape hU hx hkl hs0 htern
+  obtain ⟨e, ha, hes, he, hem⟩ := c01y_sym_tape hU hx hkl hs2 hmask hnoise
+  obtain ⟨pk0, hgen, _, _⟩ := genPublicKey_pkRel a1 (c01v_t64 hkl) (sk := sk) (by rw [a6]; exact k1) ha (e := e) (by rw [a6]; exact hes)
+    saveSeed
+  rw [hem]
+  refine ⟨sk, pk0, ?_, hgen, ⟨hkl, hbgv, k1, k2, e, saveSeed, hes, he, ha, hgen⟩⟩
+  rw [k3]; exact genSecretKey_eq_skNtt kl sk
+
 /-! ## the noise sampler is total -/
 
 theorem c01y_sampleMany_cbd (xof : Rng.Xof) : ∀ (n : Nat) (s : Rng.St), ∃ vs s', Rng.sampleMany (Rng.cbdDraw xof) n s = .ok (vs, s')
